@@ -5,6 +5,7 @@ resolved modulo the number of live (and not in-flight) slots, so any subsequence
 still a program.  Execution never draws from a PRNG and never reads a clock.
 """
 import copy
+import os
 from fractions import Fraction
 
 import numpy as np
@@ -14,6 +15,7 @@ from .lib import Fxp, Config, fxf
 from . import values as V
 from . import quant as Q
 
+_HERE = os.path.dirname(os.path.abspath(__file__))
 MAX_SLOTS = 12
 MAX_DEPTH = 2
 
@@ -205,10 +207,10 @@ class World(object):
             cand = [i for i in cand if not any(self.reg_reaches(self.slots[i].obj, b) for b in bo)]
             if self.cfg_template is not None:
                 # every construction copies the global Config.template, registers included
-                c = self.configs[self.cfg_template]
+                tcfg = self.configs[self.cfg_template]
                 for f in REG_FIELDS:
-                    r = getattr(c, '_' + f, None)
-                    if isinstance(r, Fxp) and any(self.reg_reaches(r, b) for b in bo):
+                    treg = getattr(tcfg, '_' + f, None)
+                    if isinstance(treg, Fxp) and any(self.reg_reaches(treg, b) for b in bo):
                         raise Skip('Config.template leads to an object in flight')
         bad = [s.obj for s in self.slots if s.tainted]
         if bad:
@@ -420,6 +422,13 @@ class World(object):
             except RecursionError:
                 raise
             except Exception as e:  # the library rejected the operation
+                tb = e.__traceback__
+                while tb is not None and tb.tb_next is not None:
+                    tb = tb.tb_next
+                if tb is not None and os.path.dirname(os.path.abspath(tb.tb_frame.f_code.co_filename)) == _HERE:
+                    # raised by simulator code (possibly deep inside a callback): a harness fault,
+                    # never to be mistaken for the library rejecting an operation
+                    raise HarnessError('%s in simulator code: %s' % (type(e).__name__, e)) from e
                 st.outcome = 'rejected'
                 st.exc = type(e).__name__
                 st.exc_obj = e
